@@ -311,11 +311,20 @@ Fixpoint bare_names (es : exprs) : list name :=
   | ECons _ tl => bare_names tl
   end.
 
-Definition ho_calls (f : expr) (args kws : exprs) : list event :=
+(* each of them may or may not be called (map is lazy, sorted(key=) calls only for a non-empty input) *)
+Fixpoint may_calls (xs : list name) (o : oracle) : res :=
+  match xs with
+  | [] => ([], o)
+  | x :: tl =>
+      let '(d, o1) := draw o in
+      let '(t, o2) := may_calls tl o1 in
+      ((if truthy d then [EvCall (CName x)] else []) ++ t, o2)
+  end.
+
+Definition ho_calls (f : expr) (args kws : exprs) (o : oracle) : res :=
   match f with
-  | EName g => if mem g higher_order
-               then map (fun x => EvCall (CName x)) (bare_names args ++ bare_names kws) else []
-  | _ => []
+  | EName g => if mem g higher_order then may_calls (bare_names args ++ bare_names kws) o else ([], o)
+  | _ => ([], o)
   end.
 
 Fixpoint eval (e : expr) (o : oracle) {struct e} : res :=
@@ -341,7 +350,8 @@ Fixpoint eval (e : expr) (o : oracle) {struct e} : res :=
       let '(t1, o1) := eval f o in
       let '(t2, o2) := eval_l args o1 in
       let '(t3, o3) := eval_l kws o2 in
-      (t1 ++ t2 ++ t3 ++ [EvCall (callee_of f)] ++ ho_calls f args kws, o3)
+      let '(t4, o4) := ho_calls f args kws o3 in
+      (t1 ++ t2 ++ t3 ++ [EvCall (callee_of f)] ++ t4, o4)
   | EStarred e => eval e o
   | EComp elt gs => eval_g gs (eval elt) o
   | EDictComp k v gs =>
